@@ -277,6 +277,12 @@ type vHolder struct{ v interface{} }
 
 func (h vHolder) Interface() interface{} { return h.v }
 
+// vErr: a concrete error type that wraps the sentinel
+type vErr struct{}
+
+func (*vErr) Error() string { return "verif: concrete failure" }
+func (*vErr) Unwrap() error { return errSentinel }
+
 // vRole: a defined type over string (no methods)
 type vRole string
 
@@ -334,6 +340,18 @@ func newRunEnv() *runEnv {
 			return v
 		},
 		"fail": func(id int) (string, error) {
+			e.mu.Lock()
+			e.calls = append(e.calls, probeCall{"fail", id, nil})
+			e.mu.Unlock()
+			return "", errSentinel
+		},
+		"failc": func(id int) (string, *vErr) {
+			e.mu.Lock()
+			e.calls = append(e.calls, probeCall{"fail", id, nil})
+			e.mu.Unlock()
+			return "", &vErr{}
+		},
+		"faili": func(id int) (string, interface{}) {
 			e.mu.Lock()
 			e.calls = append(e.calls, probeCall{"fail", id, nil})
 			e.mu.Unlock()
